@@ -279,8 +279,8 @@ theorem P.markerTypeOf_spec (p : P) (h : TInv p) (ty : MType) (p1 : P) (hh : Nat
             simp only [List.length_append, List.length_cons, List.length_nil]
             omega
 
-theorem P.marker_TInv (p : P) (h : TInv p) (t : Nat) (ty : MType) (name : Nat) (strs : List Nat) :
-    TInv (p.marker t ty name strs).1 ∧ (p.marker t ty name strs).2 ≠ .bug := by
+theorem P.marker_TInv (p : P) (h : TInv p) (t : Nat) (ty : MType) (name : Nat) (strs : List Nat) (tm : MTiming) :
+    TInv (p.marker t ty name strs tm).1 ∧ (p.marker t ty name strs tm).2 ≠ .bug := by
   unfold P.marker
   cases hmt : p.markerTypeOf ty with
   | none => exact ⟨h, by simp⟩
@@ -302,7 +302,7 @@ theorem P.marker_TInv (p : P) (h : TInv p) (t : Nat) (ty : MType) (name : Nat) (
             (th.strings.forGlobal name nameStr).1 th.stacks.prefixes.length p1.cats.length
             p1.gstrings.strings.length p1.schemas
             (a8.mono h1.2.2 (Nat.le_refl _) (Nat.le_refl _) (fun _ _ h => h) (Nat.le_refl _)) h1.1 h1.2.1
-            hsc (hp1.schemaCats schema (List.mem_of_getElem? hsc)) hv.1 (Decidable.of_not_not hlen)
+            hsc (hp1.schemaCats schema (List.mem_of_getElem? hsc)) hv.1 (Decidable.of_not_not hlen) tm
         simp only [e]
         refine ⟨hp1.setThread t _ ?_, by simp⟩
         have hnn := Nat.le_trans h1.2.2 hn'
@@ -344,7 +344,7 @@ theorem ThreadInv.new (g : GB) (proc : Nat) (tid : IdStr) (start : Nat) (main : 
   · exact ⟨rfl, rfl, rfl, fun _ hx => (nomatch hx), fun _ hx => (nomatch hx), fun _ hx => (nomatch hx),
       fun _ hx => (nomatch hx), by intro j l a hl; simp at hl⟩
   · exact ⟨rfl, fun _ hx => (nomatch hx), (by intro i q hq; simp at hq), fun _ hx => (nomatch hx), StCanon.empty⟩
-  · exact ⟨rfl, rfl, rfl, rfl, fun _ hx => (nomatch hx), fun _ hx => (nomatch hx), fun _ hx => (nomatch hx),
+  · exact ⟨rfl, rfl, rfl, ⟨rfl, rfl, rfl⟩, fun _ hx => (nomatch hx), fun _ hx => (nomatch hx), fun _ hx => (nomatch hx),
       ⟨rfl, rfl⟩⟩
 
 theorem mappingAdd_libs (maps : List Mapping) (m : Mapping) (maps' : List Mapping)
@@ -566,9 +566,9 @@ theorem step_TInv (p : P) (h : TInv p) (op : Op) (hv : handlesValid p op = true)
       · exact h.schemaCats sc hsc
       · exact hv
     · exact h.statics.mono (by simp)
-  | marker t ty name strs =>
+  | marker t ty name strs tm =>
     simp only [step]
-    exact (p.marker_TInv h t ty name strs).1
+    exact (p.marker_TInv h t ty name strs tm).1
   | markerStack t m stack =>
     simp only [handlesValid, Bool.and_eq_true, decide_eq_true_eq] at hv
     simp only [step]
